@@ -337,6 +337,7 @@ def execute(case):
                                  culprit)
 
     saved_temperature = [None]
+    seen_replaced = [0]
     last_ctrl = 'construction'
     perturbed = False
     monitored_after_perturb = False
@@ -378,6 +379,11 @@ def execute(case):
             break
         if obs.get('aborted'):
             bump('fault_abort_forward')
+        if getattr(rep, 'objects_replaced', 0) != seen_replaced[0]:
+            seen_replaced[0] = rep.objects_replaced
+            install()                            # deepcopy / load_state_dict(assign=True): hooks go on the new objects
+            captured.clear()
+            bump('model_objects_replaced')
         if k == 'perturb_arch' or (k == 'train_step' and op.get('which') in ('nas', 'both') and not obs.get('aborted')):
             perturbed = True
         n_cap = len(captured)
